@@ -15,6 +15,8 @@ From WM Require Import Base.Prelude Message.Model Handler.RouterHandle Handler.R
      Pipeline.Model Pipeline.Proofs Pipeline.Final Pipeline.SubLink Pipeline.ImmModel Pipeline.ImmProofs Pipeline.CtxModel Pipeline.CtxProofs GoChannel.SubCtx
      Corr.C01 Pipeline.Example Pipeline.ProductModel Pipeline.ProductProofs Pipeline.ProductExample.
 
+From WM Require GoChannel.Compose Pipeline.ComposeRefine.
+
 Section C01.
   Context {M : Type}.
   Variable hf : nat -> M -> list M.
@@ -100,6 +102,19 @@ Section C01.
           (forall y, In y (expected_sink hf k srcs) -> In y (topic st k))
           /\ sink_complete hf eqbM k srcs (topic st k) = true).
   Proof. exact (at_least_once_ctx hf eqbM eqbM_spec). Qed.
+
+  (** the acceptors are linked to the model: the model trace the correspondence check compares the
+      implementation with (strict replay of the observed schedule on the guarded model, under any
+      script - in particular the context-aware script [sc_ctx cl sc] of the observed context
+      oracle) passes every monitor that judges the implementation *)
+  Theorem C01_replayed_model_accepted : forall k sc srcs ls st,
+    preplay_imm hf eqbM rt_handle k sc (pinit srcs) ls = Some st ->
+    log_ok hf eqbM (dlog st) = true
+    /\ sink_sound hf eqbM k srcs (topic st k) = true
+    /\ immediate_ok eqbM (dlog st) = true
+    /\ (quiescentb k st = true -> sink_complete hf eqbM k srcs (topic st k) = true
+                                  /\ redelivery_ok eqbM (dlog st) = true).
+  Proof. exact (replayed_model_accepted hf eqbM eqbM_spec). Qed.
 
   (** never lost: at every moment every expected arrival is at the final topic or has a
       pending ancestor at some topic *)
@@ -232,6 +247,52 @@ Example C01_product_witness :
   /\ abs 0 (xtop px_run 0) = [] /\ xnsrc px_run = 1.
 Proof. exact product_witness. Qed.
 
+(** ** the topic interface is satisfied by the REAL composed GoChannel model (GoChannel/Compose.v:
+    registry x one send protocol per subscription, with every teardown, Close of other clients,
+    persistent replay and blocking wait).  For a subscription x that is not cancelled while the
+    Pub/Sub is not closed ([x_alive] labels), whatever all other subscriptions, publishers and
+    teardowns do: every step is the abstract topic step [glab] names ([gabs] = publications with a
+    Sender for x and no Acked copy) *)
+Theorem C01_gochannel_refines_topic_step : forall x c l c', ComposeRefine.GInv x c ->
+  ComposeRefine.x_alive x l = true -> Compose.cstep c l = Some c' ->
+  ComposeRefine.GInv x c'
+  /\ tstep (ComposeRefine.gabs x c) (ComposeRefine.glab x c l c') = Some (ComposeRefine.gabs x c').
+Proof. exact ComposeRefine.compose_refines_step. Qed.
+
+Theorem C01_gochannel_refines_topic : forall x pers blk fx caps fa ls,
+  let c0 := Compose.cinit pers blk fx caps fa in
+  treplay [] (ComposeRefine.gtrace x c0 ls)
+  = Some (ComposeRefine.gabs x (ComposeRefine.grun_alive x c0 ls)).
+Proof. exact ComposeRefine.compose_topic_refines. Qed.
+
+(** no loss before the Ack *)
+Theorem C01_gochannel_no_loss_before_ack : forall x c l c' p, ComposeRefine.GInv x c ->
+  ComposeRefine.x_alive x l = true -> Compose.cstep c l = Some c' -> In p (ComposeRefine.gabs x c) ->
+  In p (ComposeRefine.gabs x c')
+  \/ exists cc, l = Compose.CSub x (LAck cc) /\ c_st (copies (Compose.ci c x) cc) = Unsettled
+                /\ c_pub (copies (Compose.ci c x) cc) = p.
+Proof. exact ComposeRefine.compose_no_loss_before_ack. Qed.
+
+(** redelivery after a Nack: the Sender's next two steps are enabled in the composed system and
+    offer a fresh, unsettled copy of the same publication *)
+Theorem C01_gochannel_redelivers_after_nack : forall x c t p cc, ComposeRefine.GInv x c ->
+  Sub.thr (Compose.ci c x) t = SWait p cc -> c_st (copies (Compose.ci c x) cc) = Nacked ->
+  exists c1, Compose.cstep c (Compose.CSub x (LSeeNacked t)) = Some c1
+    /\ exists c2, Compose.cstep c1 (Compose.CSub x (LStep t)) = Some c2
+       /\ Sub.thr (Compose.ci c2 x) t = SSend p (next (Compose.ci c x))
+       /\ c_pub (copies (Compose.ci c2 x) (next (Compose.ci c x))) = p
+       /\ c_st (copies (Compose.ci c2 x) (next (Compose.ci c x))) = Unsettled.
+Proof. exact ComposeRefine.compose_redelivers_after_nack. Qed.
+
+Theorem C01_gochannel_one_in_flight : forall x c, ComposeRefine.GInv x c ->
+  length (outstanding (Compose.ci c x)) <= 1.
+Proof. exact ComposeRefine.compose_one_in_flight. Qed.
+Print Assumptions C01_gochannel_refines_topic_step.
+Print Assumptions C01_gochannel_refines_topic.
+Print Assumptions C01_gochannel_no_loss_before_ack.
+Print Assumptions C01_gochannel_redelivers_after_nack.
+Print Assumptions C01_gochannel_one_in_flight.
+
 (** the fairness hypothesis is satisfiable: every finite script has it *)
 Theorem C01_finite_scripts_are_fair : forall k (l : list (list fault)), eventually_clean k (sc_of l).
 Proof. exact sc_of_eventually_clean. Qed.
@@ -310,6 +371,7 @@ Print Assumptions C01_at_least_once_context_aware.
 Print Assumptions C01_delivery_context_is_live.
 Print Assumptions C01_live_contexts_change_nothing.
 Print Assumptions C01_dead_contexts_never_stop.
+Print Assumptions C01_replayed_model_accepted.
 Print Assumptions C01_never_lost.
 Print Assumptions C01_at_least_once.
 Print Assumptions C01_every_source_reaches_the_sink.
